@@ -3,11 +3,13 @@
 Require Extraction.
 Require Import ExtrOcamlBasic.
 From Coq Require Import ZArith NArith List FMapPositive.
-From CB Require Import Common.IntN Wasm.Syntax Wasm.Opcodes Wasm.Sem Wasm.Compile Wasm.Machine Wasm.KnownClasses.
+From CB Require Import Common.IntN Wasm.Syntax Wasm.Opcodes Wasm.Sem Wasm.Compile Wasm.Machine Wasm.KnownClasses
+     Wasm.BlockTheorem Wasm.BlockDead Wasm.BlockDeadTheorem.
 Extraction Language OCaml.
 Extraction "wasm_model.ml"
   plain_of_byte mem_of_byte mk_const mk_val structure_body flatten_body
   run no_host mem_get PositiveMap.elements
   compile_module classes_of_function build_artifact mrun metering_host
   as_u32 as_u64
+  strip blocks_ok blocks_ok_r blocks_ok_dead blocks_ok_r_dead cm_func_type nth_error
   Z.of_N Z.to_N N.of_nat Nat.add.
